@@ -258,6 +258,10 @@ func (t *Terms) term(v ssa.Value) string {
 	case *ssa.Call:
 		return t.callTerm(x, &x.Call)
 	case *ssa.Extract:
+		// the value half of os.LookupEnv(k) is os.Getenv(k) (both are "" for an unset variable)
+		if c, ok := x.Tuple.(*ssa.Call); ok && x.Index == 0 && calleeName(&c.Call) == "os.LookupEnv" && len(c.Call.Args) == 1 {
+			return "call:os.Getenv(" + t.T(c.Call.Args[0]) + ")"
+		}
 		return "ext(" + t.T(x.Tuple) + "," + fmt.Sprint(x.Index) + ")"
 	case *ssa.Slice:
 		return "slice(" + t.T(x.X) + "," + t.T(x.Low) + "," + t.T(x.High) + ")"
